@@ -1262,6 +1262,45 @@ pub fn url() -> BoxedStrategy<String> {
     .boxed()
 }
 
+/// Degenerate but API-legal external targets: nothing, only blanks, blanks at the edges.
+pub const DEGENERATE_URLS: [&str; 5] = ["", " ", " \t", "  https://example.com/padded ", "\thttp://a.aa/"];
+
+pub fn degenerate_url_class(u: &str) -> Option<&'static str> {
+    if u.is_empty() {
+        Some("empty")
+    } else if u == " " {
+        Some("blank")
+    } else if u.trim().is_empty() {
+        Some("blanks+tab")
+    } else if u.trim() != u {
+        Some("edge-blanks")
+    } else {
+        None
+    }
+}
+
+/// A degenerate external link on A1, i.e. in front of every other link of the sheet in the
+/// row/column order both writers use (a link already on A1 is replaced).
+fn put_degenerate_first(links: &mut Vec<LinkSpec>, target: Option<String>) {
+    if let Some(t) = target {
+        links.retain(|l| !(l.col == 1 && l.row == 1));
+        links.insert(
+            0,
+            LinkSpec {
+                col: 1,
+                row: 1,
+                internal: false,
+                target: t,
+                tooltip: None,
+            },
+        );
+    }
+}
+
+fn degenerate_url(p: f64) -> BoxedStrategy<Option<String>> {
+    prop::option::weighted(p, prop::sample::select(DEGENERATE_URLS.to_vec()).prop_map(|s| s.to_string())).boxed()
+}
+
 /// Internal locations name a sheet of the workbook; which one is only known when the sheet
 /// list exists, so the generator leaves a marker `\u{1}<raw index>\u{1}` that `normalise`
 /// replaces by the quoted sheet name.
@@ -1279,13 +1318,19 @@ pub fn link_specs(max: usize) -> BoxedStrategy<Vec<LinkSpec>> {
         5 => url().prop_map(|u| (false, u)),
         2 => location().prop_map(|l| (true, l)),
     ];
-    sized_vec((col_pos(), row_pos(), target, opt_text(0.3, nonempty_text(12))).boxed(), max)
-        .prop_map(|v| {
+    (sized_vec((col_pos(), row_pos(), target, opt_text(0.3, nonempty_text(12))).boxed(), max), degenerate_url(0.12))
+        .prop_map(|(v, deg)| {
             let mut seen = BTreeSet::new();
-            v.into_iter()
+            let mut links: Vec<LinkSpec> = v
+                .into_iter()
                 .filter(|(c, r, _, _)| seen.insert((*c, *r)))
                 .map(|(col, row, (internal, target), tooltip)| LinkSpec { col, row, internal, target, tooltip })
-                .collect()
+                .collect();
+            // only next to other links: alone it would say nothing about numbering
+            if !links.is_empty() {
+                put_degenerate_first(&mut links, deg);
+            }
+            links
         })
         .boxed()
 }
@@ -1714,12 +1759,15 @@ pub fn links_wb(tier: Tier) -> BoxedStrategy<AnnotWb> {
         5 => url().prop_map(|u| (false, u)),
         2 => location().prop_map(|l| (true, l)),
     ];
-    let links = prop::collection::vec((col_pos(), row_pos(), target, opt_text(0.3, nonempty_text(12))), 2..=24).prop_map(|v| {
+    let links = (prop::collection::vec((col_pos(), row_pos(), target, opt_text(0.3, nonempty_text(12))), 2..=24), degenerate_url(0.3)).prop_map(|(v, deg)| {
         let mut seen = BTreeSet::new();
-        v.into_iter()
+        let mut links = v
+            .into_iter()
             .filter(|(c, r, _, _)| seen.insert((*c, *r)))
             .map(|(col, row, (internal, target), tooltip)| LinkSpec { col, row, internal, target, tooltip })
-            .collect::<Vec<_>>()
+            .collect::<Vec<_>>();
+        put_degenerate_first(&mut links, deg);
+        links
     });
     let table = prop::option::weighted(0.25, (1u32..6, 1u32..6, 0u32..3, 1u32..4).prop_map(|(c, r, w, h)| RectSpec { c1: c, r1: r, c2: c + w, r2: r + h }));
     let sheet = (links, prop::option::weighted(0.3, prop::collection::vec(any::<u8>(), 1..20)), sized_vec((col_pos(), row_pos(), author()).boxed(), 4), table).prop_map(|(links, blob, comments, table)| {
